@@ -234,5 +234,14 @@ theorem ni_stepOp {b : Bag} (h : NI b) (hr : Rect b) (op : Op) (hne : ¬ NameEdi
       · rename_i r hrr
         obtain ⟨k, i, n, _⟩ := removeGapSites_fields hrr
         exact h.keys k i n
+  | compress =>
+    simp only [Model.stepOp]
+    split
+    · exact h
+    · split
+      · exact h
+      · rename_i r hrr
+        obtain ⟨k, i, n, _⟩ := compressBag_fields hrr
+        exact h.keys k i n
 
 end Gv.Proofs.BagAbs
